@@ -442,8 +442,11 @@ def gen_case(rng, tier, dim):
         g.used_gpow = g.used_exp = False
     used = tree_funcs(tree)
     spaces = {f: s for f, s in spaces.items() if f in used} or {"u": spaces["u"]}
-    return {"dim": dim, "mapping": mapping, "family": family, "spaces": spaces, "tree": tree, "order": order,
+    case = {"dim": dim, "mapping": mapping, "family": family, "spaces": spaces, "tree": tree, "order": order,
             "shape": shape, "seed": rng.randrange(1 << 30), "origin": "random"}
+    if mapping["type"] == "catalogue" and mapping.get("params") and dim < 3:
+        case["prehistory"] = True      # same class / name with other parameter values used first (C03_impl.World)
+    return case
 
 
 def est_cost(c):
